@@ -1,8 +1,299 @@
-/- EmdModel.Ensemble — (stub; filled in by the property that owns it) -/
+/-
+  EmdModel.Ensemble — worker pool, random stream and the ensemble sifts (C08; the pool is also
+  what C07's schedule independence is about).
+
+  * `Pool`: a `multiprocessing.Pool.starmap` call.  A *schedule* is the global order in which the
+    jobs get executed plus the job → worker assignment.  Workers are created by `fork`: every
+    worker starts from a private copy of the parent's state (`s0`), and a job that changes state
+    (draws from the random generator) changes only the copy of the worker it runs on.  Results are
+    collected by job index (`starmap` returns them in argument order).
+  * the random generator is an abstract stream `draw : ρ → Sig × ρ`.
+  * `ensembleTraceForkDraw` is the pinned code (`_sift_with_noise` draws inside the worker);
+    `ensembleTrace` is the repaired code (the parent draws one array per member and ships it in
+    the job arguments).  Both return, per member, the noise actually used next to the member's
+    decomposition, which is what the harness observes from outside.
+  * the classic sift is a parameter `S : Sig → List Sig` (cap and options fixed by the caller);
+    the complete-ensemble variant uses `F`/`Fn : Sig → Sig` (first IMF of a signal / of a noise column).
+-/
 import EmdModel.Protocol
 
-namespace Ensemble
+namespace Pool
 
-def handle (_o : Protocol.Op) : Option String := none
+structure Schedule where
+  /-- global execution order of the job indices -/
+  order : List Nat
+  /-- job index ↦ worker that executes it -/
+  worker : Nat → Nat
+
+/-- σ schedules `N` jobs on `p` workers: every job is executed exactly once, by one of the workers -/
+def Schedule.Valid (σ : Schedule) (N p : Nat) : Prop :=
+  σ.order.Perm (List.range N) ∧ ∀ j, j < N → σ.worker j < p
+
+/-- identity schedule: jobs in order, round-robin over `p` workers -/
+def Schedule.roundRobin (N p : Nat) : Schedule := { order := List.range N, worker := fun j => j % p }
+
+def upd {S : Type} (st : Nat → S) (w : Nat) (s : S) : Nat → S := fun w' => if w' = w then s else st w'
+
+/-- run the jobs in the given order; `st w` is the private state of worker `w`;
+    the log lists (job index, output) in execution order -/
+def exec {S α β : Type} (job : S → α → β × S) (args : List α) (worker : Nat → Nat) :
+    (Nat → S) → List Nat → List (Nat × β)
+  | _, [] => []
+  | st, j :: rest =>
+    match args[j]? with
+    | none => exec job args worker st rest
+    | some a =>
+      (j, (job (st (worker j)) a).1) ::
+        exec job args worker (upd st (worker j) (job (st (worker j)) a).2) rest
+
+/-- results by job index -/
+def collect {β : Type} (N : Nat) (done : List (Nat × β)) : List β :=
+  (List.range N).filterMap fun i => done.lookup i
+
+/-- `starmap` of a job that reads and advances worker-private (forked) state -/
+def runPoolFork {S α β : Type} (σ : Schedule) (job : S → α → β × S) (s0 : S) (args : List α) : List β :=
+  collect args.length (exec job args σ.worker (fun _ => s0) σ.order)
+
+/-- `starmap` of a pure job -/
+def runPool {α β : Type} (σ : Schedule) (f : α → β) (args : List α) : List β :=
+  runPoolFork σ (fun (_ : Unit) a => (f a, ())) () args
+
+end Pool
+
+namespace Ensemble
+open Pool
+
+inductive Mode | single | flip
+  deriving DecidableEq
+
+/-- the k-th array a generator in state `g` hands out -/
+def nthDraw {ρ : Type} (draw : ρ → Sig × ρ) (g : ρ) : Nat → Sig
+  | 0 => (draw g).1
+  | k + 1 => nthDraw draw (draw g).2 k
+
+/-- `N` successive draws -/
+def drawN {ρ : Type} (draw : ρ → Sig × ρ) : Nat → ρ → List Sig
+  | 0, _ => []
+  | k + 1, g => (draw g).1 :: drawN draw k (draw g).2
+
+/-- column `j` of a decomposition; a column the decomposition does not have counts as zero -/
+def colOr (n : Nat) (r : List Sig) (j : Nat) : Sig := (r[j]?).getD (Sig.zeros n)
+
+def half (a : Sig) : Sig := a.map (· / 2)
+
+/-- `(a + b) / 2` column by column, the narrower decomposition zero-padded -/
+def flipMean (n : Nat) (a b : List Sig) : List Sig :=
+  (List.range (max a.length b.length)).map fun j => half (Sig.add (colOr n a j) (colOr n b j))
+
+/-- `_sift_with_noise` with the noise array given -/
+def siftWithNoise (S : Sig → List Sig) (mode : Mode) (scale : Option Rat) (x ν : Sig) : List Sig :=
+  let ν' := match scale with
+    | some c => Sig.smul c ν
+    | none => ν
+  match mode with
+  | .single => S (Sig.add x ν')
+  | .flip => flipMean x.length (S (Sig.add x ν')) (S (Sig.sub x ν'))
+
+/-- `np.array(cols).mean(axis=0)` -/
+def meanOver (n : Nat) (cs : List Sig) : Sig := (Sig.vsum n cs).map (· / (cs.length : Rat))
+
+def maxWidth (members : List (List Sig)) : Nat := members.foldr (fun r m => max r.length m) 0
+
+/-- per-IMF mean over the members; as many columns as the widest member has (every member is already
+    capped by the sift it runs), narrower members zero-padded -/
+def ensembleMean (n : Nat) (members : List (List Sig)) : List Sig :=
+  (List.range (maxWidth members)).map fun j => meanOver n (members.map fun r => colOr n r j)
+
+/-- repaired `ensemble_sift`: the parent draws, jobs are pure; per member (noise used, decomposition) -/
+def ensembleTrace {ρ : Type} (σ : Schedule) (draw : ρ → Sig × ρ) (g : ρ) (S : Sig → List Sig)
+    (mode : Mode) (N : Nat) (scale : Rat) (x : Sig) : List (Sig × List Sig) :=
+  runPool σ (fun ν => (ν, siftWithNoise S mode (some scale) x ν)) (drawN draw N g)
+
+/-- pinned `ensemble_sift`: every job draws from the forked copy of the generator of its worker -/
+def ensembleTraceForkDraw {ρ : Type} (σ : Schedule) (draw : ρ → Sig × ρ) (g : ρ) (S : Sig → List Sig)
+    (mode : Mode) (N : Nat) (scale : Rat) (x : Sig) : List (Sig × List Sig) :=
+  runPoolFork σ (fun gw (_ : Nat) => (((draw gw).1, siftWithNoise S mode (some scale) x (draw gw).1), (draw gw).2))
+    g (List.range N)
+
+def ensembleSift {ρ : Type} (σ : Schedule) (draw : ρ → Sig × ρ) (g : ρ) (S : Sig → List Sig)
+    (mode : Mode) (N : Nat) (scale : Rat) (x : Sig) : List Sig :=
+  ensembleMean x.length ((ensembleTrace σ draw g S mode N scale x).map (·.2))
+
+def ensembleSiftForkDraw {ρ : Type} (σ : Schedule) (draw : ρ → Sig × ρ) (g : ρ) (S : Sig → List Sig)
+    (mode : Mode) (N : Nat) (scale : Rat) (x : Sig) : List Sig :=
+  ensembleMean x.length ((ensembleTraceForkDraw σ draw g S mode N scale x).map (·.2))
+
+/-! complete ensemble: the parent holds a noise matrix (one column per member); every stage adds
+    column `i` to the current residual for member `i`, averages the members' first IMFs, then
+    removes the first IMF of every noise column from that column. -/
+
+/-- one fan-out of `_sift_with_noise(…, max_imfs=1)`: per member (noise used, [first IMF]) -/
+def ceemdMembers (σ : Schedule) (F : Sig → Sig) (mode : Mode) (scale : Option Rat) (proto : Sig)
+    (noise : List Sig) : List (Sig × List Sig) :=
+  runPool σ (fun ν => (ν, siftWithNoise (fun y => [F y]) mode scale proto ν)) noise
+
+def ceemdImf (σ : Schedule) (F : Sig → Sig) (mode : Mode) (scale : Option Rat) (proto : Sig)
+    (noise : List Sig) : Sig :=
+  meanOver proto.length ((ceemdMembers σ F mode scale proto noise).map fun m => colOr proto.length m.2 0)
+
+/-- `noise = noise - first IMF of each noise column` -/
+def ceemdNoiseStep (σ : Schedule) (Fn : Sig → Sig) (noise : List Sig) : List Sig :=
+  List.zipWith Sig.sub noise (runPool σ Fn noise)
+
+/-- the while loop, `stages` iterations; `c` counts the `starmap` calls made so far (two per stage) -/
+def ceemdLoop (σ : Nat → Schedule) (F Fn : Sig → Sig) (mode : Mode) (x : Sig) :
+    Nat → Nat → List Sig → List Sig → List Sig × List Sig
+  | 0, _, imf, noise => (imf, noise)
+  | s + 1, c, imf, noise =>
+    let proto := Sig.sub x (Sig.vsum x.length imf)
+    let next := ceemdImf (σ c) F mode none proto noise
+    ceemdLoop σ F Fn mode x s (c + 2) (imf ++ [next]) (ceemdNoiseStep (σ (c + 1)) Fn noise)
+
+/-- `complete_ensemble_sift` with the parent matrix `M` (columns) and `stages` loop iterations.
+    As in the code the first fan-out receives the already scaled matrix *and* the scale. -/
+def ceemd (σ : Nat → Schedule) (F Fn : Sig → Sig) (mode : Mode) (scale : Rat) (M : List Sig) (x : Sig)
+    (stages : Nat) : List Sig × List Sig :=
+  let noise0 := M.map (Sig.smul scale)
+  let imf0 := ceemdImf (σ 0) F mode (some scale) x noise0
+  ceemdLoop σ F Fn mode x stages 2 [imf0] (ceemdNoiseStep (σ 1) Fn noise0)
+
+/-! ## protocol -/
+
+/-- oracle table lookup by argument (∞-norm tolerance) -/
+def close (tol : Rat) : Sig → Sig → Bool
+  | [], [] => true
+  | a :: as, b :: bs => decide (Rat.abs' (a - b) ≤ tol) && close tol as bs
+  | _, _ => false
+
+def lookupTbl {β : Type} (tol : Rat) (tbl : List (Sig × β)) (dflt : β) (arg : Sig) : β :=
+  match tbl.find? (fun e => close tol e.1 arg) with
+  | some e => e.2
+  | none => dflt
+
+def hasEntry {β : Type} (tol : Rat) (tbl : List (Sig × β)) (arg : Sig) : Bool :=
+  (tbl.find? (fun e => close tol e.1 arg)).isSome
+
+/-- generator used by the driver: state = remaining arrays -/
+def listDraw (n : Nat) : List Sig → Sig × List Sig
+  | [] => (Sig.zeros n, [])
+  | ν :: rest => (ν, rest)
+
+/-- generator whose k-th array is `[k]` (used to print which draw a member received) -/
+def counterDraw (g : Nat) : Sig × Nat := ([(g : Rat)], g + 1)
+
+def takeVecs (vs : List (Option (List Rat))) (a k : Nat) : Option (List Sig) :=
+  ((vs.drop a).take k).mapM id |>.bind fun l => if l.length = k then some l else none
+
+/-- parse `count` table entries (arg followed by `widths[i]` columns) starting at slot `a` -/
+def parseTbl (vs : List (Option (List Rat))) : Nat → List Nat → Option (List (Sig × List Sig))
+  | _, [] => some []
+  | a, w :: ws => do
+    let arg ← (vs[a]?).join
+    let cols ← takeVecs vs (a + 1) w
+    let rest ← parseTbl vs (a + 1 + w) ws
+    some ((arg, cols) :: rest)
+
+def parsePairs (vs : List (Option (List Rat))) : Nat → Nat → Option (List (Sig × Sig))
+  | _, 0 => some []
+  | a, k + 1 => do
+    let arg ← (vs[a]?).join
+    let res ← (vs[a + 1]?).join
+    let rest ← parsePairs vs (a + 2) k
+    some ((arg, res) :: rest)
+
+def parseSchedule (N p : Nat) (order workers : List Rat) : Option Schedule := do
+  let ord ← Protocol.toNats? order
+  let wk ← Protocol.toNats? workers
+  if wk.length ≠ N then none
+  else if ord.length ≠ N then none
+  else if !(List.range N).all (fun j => ord.contains j) then none
+  else if !wk.all (fun w => decide (w < p)) then none
+  else some { order := ord, worker := fun j => wk[j]?.getD 0 }
+
+def parseMode (flip : Nat) : Option Mode :=
+  if flip = 0 then some .single else if flip = 1 then some .flip else none
+
+open Protocol in
+def handle (o : Op) : Option String :=
+  match o.name with
+  | "POOLMAP" => some <| Id.run do
+      -- a pure job (a ↦ a² + 1) mapped under an observed schedule
+      let some N := o.nat? "n" | return "bad-op"
+      let some p := o.nat? "p" | return "bad-op"
+      let some order := o.vec? 0 | return "bad-op"
+      let some workers := o.vec? 1 | return "bad-op"
+      let some args := o.vec? 2 | return "bad-op"
+      if p = 0 then return "err ValueError"
+      if args.length ≠ N then return "bad-op"
+      let some σ := parseSchedule N p order workers | return "bad-op"
+      return s!"ok | {fmtVec (runPool σ (fun a => a * a + 1) args)}"
+  | "POOLNOISE" => some <| Id.run do
+      -- which draw does each member receive under the given schedule?
+      let some N := o.nat? "n" | return "bad-op"
+      let some p := o.nat? "p" | return "bad-op"
+      let some model := o.str? "model" | return "bad-op"
+      let some order := o.vec? 0 | return "bad-op"
+      let some workers := o.vec? 1 | return "bad-op"
+      if p = 0 then return "err ValueError"
+      let some σ := parseSchedule N p order workers | return "bad-op"
+      let tr ← match model with
+        | "parent" => pure (ensembleTrace σ counterDraw 0 (fun _ => []) .single N 1 [])
+        | "fork" => pure (ensembleTraceForkDraw σ counterDraw 0 (fun _ => []) .single N 1 [])
+        | _ => return "bad-op"
+      return s!"ok | {fmtVec (tr.map fun m => m.1.headD (-1))}"
+  | "ENS" => some <| Id.run do
+      let some N := o.nat? "n" | return "bad-op"
+      let some flip := o.nat? "flip" | return "bad-op"
+      let some mode := parseMode flip | return "bad-op"
+      let some scale := o.rat? "scale" | return "bad-op"
+      let some tol := o.rat? "tol" | return "bad-op"
+      let some p := o.nat? "p" | return "bad-op"
+      let some x := o.vec? 0 | return "bad-op"
+      let some order := o.vec? 1 | return "bad-op"
+      let some workers := o.vec? 2 | return "bad-op"
+      let some noises := takeVecs o.vecs 3 N | return "bad-op"
+      let some widths := (o.vec? (3 + N)).bind toNats? | return "bad-op"
+      let some tbl := parseTbl o.vecs (4 + N) widths | return "bad-op"
+      if p = 0 then return "err ValueError"
+      if N = 0 then return "bad-op"
+      let some σ := parseSchedule N p order workers | return "bad-op"
+      if noises.any (fun ν => ν.length ≠ x.length) then return "bad-op"
+      -- every point the model evaluates the sift at must be in the oracle table
+      let pts := noises.flatMap fun ν =>
+        match mode with
+        | .single => [Sig.add x (Sig.smul scale ν)]
+        | .flip => [Sig.add x (Sig.smul scale ν), Sig.sub x (Sig.smul scale ν)]
+      if pts.any (fun a => !hasEntry tol tbl a) then return "oracle-desync sift-table-misses-a-member-input"
+      let S := lookupTbl tol tbl []
+      let out := ensembleSift σ (listDraw x.length) noises S mode N scale x
+      return s!"ok k={out.length}" ++ String.join (out.map fun c => " | " ++ fmtVec c)
+  | "CEEMD" => some <| Id.run do
+      let some N := o.nat? "n" | return "bad-op"
+      let some flip := o.nat? "flip" | return "bad-op"
+      let some mode := parseMode flip | return "bad-op"
+      let some scale := o.rat? "scale" | return "bad-op"
+      let some tol := o.rat? "tol" | return "bad-op"
+      let some stages := o.nat? "stages" | return "bad-op"
+      let some nf := o.nat? "nf" | return "bad-op"
+      let some nn := o.nat? "nn" | return "bad-op"
+      let some rot := o.nat? "rot" | return "bad-op"
+      let some x := o.vec? 0 | return "bad-op"
+      let some M := takeVecs o.vecs 1 N | return "bad-op"
+      let some tf := parsePairs o.vecs (1 + N) nf | return "bad-op"
+      let some tn := parsePairs o.vecs (1 + N + 2 * nf) nn | return "bad-op"
+      if N = 0 then return "bad-op"
+      if M.any (fun ν => ν.length ≠ x.length) then return "bad-op"
+      -- the result does not depend on the schedule; the driver rotates the execution order by `rot`
+      let σ : Nat → Schedule := fun c =>
+        { order := (List.range N).map (fun j => (j + rot + c) % N), worker := fun j => (j + c) % (rot + 1) }
+      let miss : Sig := []
+      let F := lookupTbl tol tf miss
+      let Fn := lookupTbl tol tn miss
+      let (imf, noise) := ceemd σ F Fn mode scale M x stages
+      if imf.any (fun c => c.length ≠ x.length) || noise.any (fun c => c.length ≠ x.length) then
+        return "oracle-desync first-imf-table-misses-a-member-input"
+      return s!"ok k={imf.length}" ++ String.join (imf.map fun c => " | " ++ fmtVec c)
+        ++ String.join (noise.map fun c => " | " ++ fmtVec c)
+  | _ => none
 
 end Ensemble
